@@ -40,7 +40,8 @@ CLAIMED = {
            "`cleanItems`, bind_sound_one/many (whatever the handler receives satisfies every declared validation), required_enforced, optional_absent_keeps_default; the hypotheses are shown "
            "necessary by array_differs_on_blank_items and bool_garbage_accepted (known findings). multi_agrees / multi_sound cover collectionFormat multi (no splitting: agreement on EVERY request). Tie: generated servers with three operations (query, urlencoded formData, header) of 5 random parameters each are compiled and ~25 raw values per parameter "
            "are sent (incl. values with white space at either end); handler-reached and the bound value must equal bindGen exactly and bindRef outside the two known findings; where the "
-           "binder answers `absent` for a parameter with a default, the handler must hold exactly the spec's default (defaults incl. strings made of JSON / Go punctuation)."),
+           "binder answers `absent` for a parameter with a default, the handler must hold exactly the spec's default (defaults incl. strings made of JSON / Go punctuation); "
+           "default_literal_structure: the Go literal goSliceInitializer writes for a default has exactly the structure of the value for EVERY value (strings contribute no brace or comma), tied by correspondence with the real function."),
   "note": ("Trusted: Lean kernel + audited axioms; genlab server lab; encoding/json projection of the parameter struct. Modelled rather than verified: net/http query parsing, the runtime router, "
            "swag.SplitByFormat/ConvertInt/ConvertBool (dependencies, transcribed). Outside the fragment (not claimed by the theorems, not yet sent): path, multipart and body parameters, "
            "number and strfmt formats, patterns and nested arrays."),
